@@ -42,6 +42,48 @@ def evalForAll (W : World V) (D : VarId → List V) (u : VarId) (c : Cond V) (β
         (solsUnder W D c ids p.1)
       final.map fun d => mergeBack d β
 
+/-- The same loop over an arbitrary evaluation of the condition (`evalC ctx` = the bindings of its
+    TRUE outputs under `ctx`): what `ForAll._evaluate__` does when its condition is itself a
+    `ForAll` node. -/
+def evalForAllG (W : World V) (D : VarId → List V) (u : VarId) (ids : List VarId)
+    (evalC : Bnd V → List (Bnd V)) (β : Bnd V) : List (Bnd V) :=
+  match evalTerm W D (.var u) β with
+  | [] => []
+  | p :: ps =>
+      let sols := fun (ctx : Bnd V) => (evalC ctx).map (restrictTo ids)
+      let final := ps.foldl (fun acc p' => acc.filter fun d => (sols p'.1).contains d) (sols p.1)
+      final.map fun d => mergeBack d β
+
+/-- `condition_unique_variable_ids` of the level whose universal variable is `u` and whose condition
+    is `for_all(us₀, for_all(us₁, … c))`: the condition's variables (the inner universal variables
+    included) without `u`. -/
+def idsN (c : Cond V) (u : VarId) (us : List VarId) : List VarId :=
+  ((c.vars ++ us).eraseDups).filter fun v => v != u
+
+/-- `for_all(u₀, for_all(u₁, … c))`. -/
+def evalForAllN (W : World V) (D : VarId → List V) : List VarId → Cond V → Bnd V → List (Bnd V)
+  | [], c, β => ((evalCond W D c β false).filter fun q => !q.2).map (·.1)
+  | u :: us, c, β => evalForAllG W D u (idsN c u us) (evalForAllN W D us c) β
+
+/-- One conjunct of the top-level `and_` chain: an ordinary condition, or a (nested) for_all. -/
+inductive Stage (V : Type) where
+  | cond (c : Cond V)
+  | forAll (us : List VarId) (c : Cond V)
+
+def evalStage (W : World V) (D : VarId → List V) : Stage V → Bnd V → List (Bnd V)
+  | .cond c, β => ((evalCond W D c β false).filter fun q => !q.2).map (·.1)
+  | .forAll us c, β => evalForAllN W D us c β
+
+/-- `and_(s₁, s₂, …)` is left-nested: each conjunct is evaluated under every true output of the
+    conjuncts before it. -/
+def evalStages (W : World V) (D : VarId → List V) (stages : List (Stage V)) (β : Bnd V) : List (Bnd V) :=
+  stages.foldl (fun bs s => bs.flatMap (evalStage W D s)) [β]
+
+/-- Rows of `an(set_of(sel, s₁, s₂, …))`. -/
+def rowsStages (W : World V) (D : VarId → List V) (sel : List (Term V)) (stages : List (Stage V)) :
+    List (List V) :=
+  (evalStages W D stages []).flatMap fun β => (evalArgs W D sel β).map (·.2)
+
 /-- Rows of `an(set_of(sel, for_all(u, c)))`, optionally under an outer conjunct `d`:
     `and_(d, for_all(u, c))`. -/
 def rowsForAll (W : World V) (D : VarId → List V) (sel : List (Term V)) (outer : Option (Cond V))
